@@ -16,6 +16,14 @@ _set = B._set
 UIntC = B.UIntC
 
 
+def _inner_hint(h, head):
+    if h is None:
+        return None
+    from .interp import type_head
+    hh, ha = type_head(h)
+    return ha[0] if hh == head and ha else None
+
+
 def call(i, f, *args):
     return i.call_value(f, list(args))
 
@@ -136,7 +144,7 @@ B.OPT_METHODS = {
     'unwrap_or': lambda i, v, a, p, h, t: v.vals[0] if v.var == 'Some' else a[0],
     'unwrap_or_else': lambda i, v, a, p, h, t: v.vals[0] if v.var == 'Some' else call(i, a[0]),
     'unwrap_or_default': o_unwrap_or_default,
-    'map': lambda i, v, a, p, h, t: Some(call(i, a[0], v.vals[0])) if v.var == 'Some' else v,
+    'map': lambda i, v, a, p, h, t: Some(i.call_value(a[0], [v.vals[0]], _inner_hint(h, 'Option'))) if v.var == 'Some' else v,
     'inspect': lambda i, v, a, p, h, t: (call(i, a[0], v.vals[0]), v)[1] if v.var == 'Some' else v,
     'and_then': lambda i, v, a, p, h, t: deref(call(i, a[0], v.vals[0])) if v.var == 'Some' else v,
     'and': lambda i, v, a, p, h, t: _arg(a) if v.var == 'Some' else v,
